@@ -258,3 +258,659 @@ Proof.
   - destruct (IH _ (nset_insert_sorted x _ Hs)) as [H1 H2]. split; [exact H1|].
     intros k. rewrite H2, nset_insert_In. cbn [In]. split; [intros [H|[H|H]]; auto|intros [[H|H]|H]; auto].
 Qed.
+
+(* ================================================================== *)
+(* 2. specification vocabulary *)
+Definition tpaths (s : tset) : list path := map t_path s.
+Definition tsorted (s : tset) : Prop := ksorted t_path s.
+
+(* [s] is exactly the targets of the packages satisfying [sel]: every element of s is (the canonical path,
+   kind and edition of) a target of a selected package, and every target of a selected package has its
+   canonical path in s *)
+Definition selects (w : world) (sel : pkg -> Prop) (s : tset) : Prop :=
+  (forall t, In t s -> exists p st, sel p /\ In st (p_targets p) /\ t = from_target w st) /\
+  (forall p st, sel p -> In st (p_targets p) -> In (w_canon w (st_src st)) (tpaths s)).
+
+(* Root: main.rs:368-379 *)
+Definition root_in_workspace_root (w : world) (marg : option path) (md : metadata) : bool :=
+  match marg with
+  | Some m => w_canon w (workspace_root md) =? m
+  | None => w_canon w (workspace_root md) =? w_cwd w
+  end.
+Definition root_current_manifest (w : world) (marg : option path) : path :=
+  match marg with
+  | Some m => w_canon w m
+  | None => w_toml_in w (w_cwd w)
+  end.
+(* the packages whose targets Root inserts, in insertion order *)
+Definition root_packages (w : world) (marg : option path) (md : metadata) : list pkg :=
+  match packages md with
+  | [p] => [p]
+  | ps => filter (fun p => root_in_workspace_root w marg md
+                           || (w_canon w (p_manifest p) =? root_current_manifest w marg)) ps
+  end.
+Definition root_selected (w : world) (marg : option path) (md : metadata) (p : pkg) : Prop :=
+  In p (packages md) /\
+  (List.length (packages md) = 1%nat \/ root_in_workspace_root w marg md = true
+   \/ w_canon w (p_manifest p) = root_current_manifest w marg).
+
+(* Some hitlist: the first package of the metadata with a given name *)
+Definition first_with_name (ps : list pkg) (p : pkg) : Prop :=
+  exists pre post, ps = pre ++ p :: post /\ forall q, In q pre -> p_name q <> p_name p.
+Definition some_selected (hitlist : list pkgname) (md : metadata) (p : pkg) : Prop :=
+  In (p_name p) hitlist /\ first_with_name (packages md) p.
+(* ... in insertion order *)
+Fixpoint hit_list (ps : list pkg) (hs : nset) : list pkg :=
+  match ps with
+  | [] => []
+  | p :: ps' => if fst (nset_remove (p_name p) hs)
+                then p :: hit_list ps' (snd (nset_remove (p_name p) hs))
+                else hit_list ps' (snd (nset_remove (p_name p) hs))
+  end.
+Fixpoint remaining (ps : list pkg) (hs : nset) : nset :=
+  match ps with
+  | [] => hs
+  | p :: ps' => remaining ps' (snd (nset_remove (p_name p) hs))
+  end.
+
+(* All: the dependency edges that the recursion follows, and their closure *)
+Definition Edge (w : world) (m : option path) (n : pkgname) (mp : path) : Prop :=
+  exists md p d dir,
+    w_meta w m = Some md /\ In p (packages md) /\ In d (p_deps p) /\ d_name d = n /\
+    d_path d = Some dir /\ mp = w_toml_in w dir /\ w_exists w mp = true /\
+    (forall q, In q (packages md) -> p_manifest q <> mp).
+Inductive Reach (w : world) (root : option path) : option path -> Prop :=
+| Reach_root : Reach w root root
+| Reach_step : forall m n mp, Reach w root m -> Edge w m n mp -> Reach w root (Some mp).
+Definition all_selected (w : world) (root : option path) (p : pkg) : Prop :=
+  exists m md, Reach w root m /\ w_meta w m = Some md /\ In p (packages md).
+(* no two followed edges carry the same dependency name to different manifests *)
+Definition distinct_dep_names (w : world) (root : option path) : Prop :=
+  forall m1 m2 n mp1 mp2,
+    Reach w root m1 -> Edge w m1 n mp1 -> Reach w root m2 -> Edge w m2 n mp2 -> mp1 = mp2.
+
+(* the rustfmt commands that run_rustfmt plans, and those it gets to spawn *)
+Definition planned (v : verbosity) (s : tset) (fmt_args : list text) : list invocation :=
+  map (fun g => mk_invocation v (fst g) (snd g) fmt_args) (by_edition s).
+Fixpoint upto_spawn_failure (w : world) (pl : list invocation) : list invocation :=
+  match pl with
+  | [] => []
+  | i :: r => match w_child w i with SpawnFailed => [i] | _ => i :: upto_spawn_failure w r end
+  end.
+
+(* execute: the pieces of its option handling *)
+Definition verbosity_of (o : opts) : option verbosity :=
+  match o_verbose o, o_quiet o with
+  | false, false => Some Normal
+  | false, true => Some Quiet
+  | true, false => Some Verbose
+  | true, true => None
+  end.
+Definition final_args (o : opts) : option (list text) :=
+  let a := translate_check (o_check o) (o_rustfmt_options o) in
+  match o_message_format o with
+  | Some mf => convert_message_format mf a
+  | None => Some a
+  end.
+(* Some marg = the manifest argument handed to format_crate; None = rejected *)
+Definition manifest_arg (w : world) (o : opts) : option (option path) :=
+  match o_manifest_path o with
+  | Some specified => if ends_with (txt "Cargo.toml") specified then Some (Some (w_path_of w specified)) else None
+  | None => Some None
+  end.
+Definition info_request (o : opts) : bool := o_version o || existsb is_info_option (o_rustfmt_options o).
+
+(* ================================================================== *)
+(* 3. add_targets *)
+Section Targets.
+Variable w : world.
+
+Lemma add_targets_app l1 l2 s : add_targets w (l1 ++ l2) s = add_targets w l2 (add_targets w l1 s).
+Proof. unfold add_targets. rewrite map_app. apply kinsert_all_app. Qed.
+
+Lemma add_targets_sorted ts s : tsorted s -> tsorted (add_targets w ts s).
+Proof. apply kinsert_all_sorted. Qed.
+
+Lemma add_targets_paths ts s k :
+  In k (tpaths (add_targets w ts s)) <-> (exists st, In st ts /\ k = w_canon w (st_src st)) \/ In k (tpaths s).
+Proof.
+  unfold tpaths, add_targets. rewrite kinsert_all_keys. rewrite map_map. cbn [from_target t_path].
+  rewrite in_map_iff. split.
+  - intros [(st & <- & Hst)|H]; [left; exists st; split; [exact Hst|reflexivity]|right; exact H].
+  - intros [(st & Hst & ->)|H]; [left; exists st; split; [reflexivity|exact Hst]|right; exact H].
+Qed.
+
+Lemma add_targets_keeps ts s t : In t s -> In t (add_targets w ts s).
+Proof. apply kinsert_all_keeps. Qed.
+
+Lemma add_targets_from ts s t :
+  In t (add_targets w ts s) -> In t s \/ exists st, In st ts /\ t = from_target w st.
+Proof.
+  intros H. destruct (kinsert_all_from _ _ _ _ H) as [H1|H1]; [left; exact H1|right].
+  apply in_map_iff in H1. destruct H1 as (st & <- & Hst). exists st. split; [exact Hst|reflexivity].
+Qed.
+
+Lemma tsorted_nil : tsorted [].
+Proof. constructor. Qed.
+
+Lemma selects_of_list (sel : pkg -> Prop) (pkgs : list pkg) :
+  (forall p, sel p <-> In p pkgs) -> selects w sel (add_targets w (flat_map p_targets pkgs) []).
+Proof.
+  intros Hsel. split.
+  - intros t Ht. destruct (add_targets_from _ _ _ Ht) as [[]|(st & Hst & ->)].
+    apply in_flat_map in Hst. destruct Hst as (p & Hp & Hst).
+    exists p, st. split; [apply Hsel; exact Hp|split; [exact Hst|reflexivity]].
+  - intros p st Hp Hst. apply add_targets_paths. left. exists st. split; [|reflexivity].
+    apply in_flat_map. exists p. split; [apply Hsel; exact Hp|exact Hst].
+Qed.
+
+(* ------------------------------------------------------------------ *)
+(* get_targets_gen *)
+Lemma get_targets_gen_ok rec_all fuel st marg s :
+  get_targets_gen w rec_all fuel st marg = Ok s ->
+  s <> [] /\
+  match st with
+  | SRoot => get_targets_root_only w marg [] = Ok s
+  | SAll => exists v, rec_all fuel marg ([], []) = Ok (s, v)
+  | SSome hitlist => get_targets_with_hitlist w marg hitlist [] = Ok s
+  end.
+Proof.
+  unfold get_targets_gen. destruct st as [|hl|].
+  - destruct (rec_all fuel marg ([], [])) as [[s0 v0]|e]; [|discriminate]. cbn [fst].
+    destruct s0 as [|t s0]; [discriminate|]. intros H. inversion H; subst. split; [discriminate|]. exists v0. reflexivity.
+  - destruct (get_targets_with_hitlist w marg hl []) as [s0|e]; [|discriminate].
+    destruct s0 as [|t s0]; [discriminate|]. intros H. inversion H; subst. split; [discriminate|reflexivity].
+  - destruct (get_targets_root_only w marg []) as [s0|e]; [|discriminate].
+    destruct s0 as [|t s0]; [discriminate|]. intros H. inversion H; subst. split; [discriminate|reflexivity].
+Qed.
+
+Lemma get_targets_gen_err rec_all fuel st marg e :
+  match st with
+  | SRoot => get_targets_root_only w marg [] = Err e
+  | SAll => rec_all fuel marg ([], []) = Err e
+  | SSome hitlist => get_targets_with_hitlist w marg hitlist [] = Err e
+  end -> get_targets_gen w rec_all fuel st marg = Err e.
+Proof.
+  unfold get_targets_gen. destruct st as [|hl|]; intros ->; reflexivity.
+Qed.
+
+(* ------------------------------------------------------------------ *)
+(* Root *)
+Lemma root_only_eq marg md s :
+  w_meta w marg = Some md ->
+  get_targets_root_only w marg s = Ok (add_targets w (flat_map p_targets (root_packages w marg md)) s).
+Proof.
+  intros Hm. unfold get_targets_root_only, root_packages, root_in_workspace_root, root_current_manifest. rewrite Hm.
+  destruct marg as [m|]; cbv zeta iota beta.
+  - destruct (packages md) as [|p [|p' ps]]; try reflexivity.
+    cbn [flat_map]. rewrite app_nil_r. reflexivity.
+  - destruct (packages md) as [|p [|p' ps]]; try reflexivity.
+    cbn [flat_map]. rewrite app_nil_r. reflexivity.
+Qed.
+
+Lemma root_packages_iff marg md p : In p (root_packages w marg md) <-> root_selected w marg md p.
+Proof.
+  unfold root_packages, root_selected.
+  set (f := fun p0 : pkg => root_in_workspace_root w marg md
+                            || (w_canon w (p_manifest p0) =? root_current_manifest w marg)).
+  assert (Hf : forall q, f q = true <->
+     (root_in_workspace_root w marg md = true \/ w_canon w (p_manifest q) = root_current_manifest w marg)).
+  { intros q. unfold f. rewrite orb_true_iff, N.eqb_eq. reflexivity. }
+  destruct (packages md) as [|a [|b ps]].
+  - cbn. split; [intros []|intros [[] _]].
+  - cbn [In List.length]. split; [intros [<-|[]]; split; [left; reflexivity|left; reflexivity]|].
+    intros [H _]. exact H.
+  - rewrite filter_In, Hf. split.
+    + intros [Hin H]. split; [exact Hin|right; exact H].
+    + intros [Hin [H|H]]; [cbn in H; discriminate|split; [exact Hin|exact H]].
+Qed.
+
+Lemma root_metadata_err marg s : w_meta w marg = None -> get_targets_root_only w marg s = Err EMetadata.
+Proof. intros H. unfold get_targets_root_only. rewrite H. reflexivity. Qed.
+
+Lemma root_ok_meta marg s s' : get_targets_root_only w marg s = Ok s' -> exists md, w_meta w marg = Some md.
+Proof.
+  unfold get_targets_root_only. destruct (w_meta w marg) as [md|]; [exists md; reflexivity|discriminate].
+Qed.
+
+(* ------------------------------------------------------------------ *)
+(* Some hitlist *)
+Lemma hitlist_loop_eq ps : forall hs s,
+  hitlist_loop w ps hs s = (remaining ps hs, add_targets w (flat_map p_targets (hit_list ps hs)) s).
+Proof.
+  induction ps as [|p ps IH]; intros hs s; cbn [hitlist_loop remaining hit_list flat_map].
+  - reflexivity.
+  - destruct (nset_remove (p_name p) hs) as [found hs']. cbn [fst snd].
+    destruct found; rewrite IH; [|reflexivity].
+    cbn [flat_map]. rewrite add_targets_app. reflexivity.
+Qed.
+
+Lemma remaining_spec ps : forall hs, nsorted hs ->
+  nsorted (remaining ps hs) /\
+  (forall k, In k (remaining ps hs) <-> In k hs /\ forall p, In p ps -> p_name p <> k).
+Proof.
+  induction ps as [|a ps IH]; intros hs Hs; cbn [remaining].
+  - split; [exact Hs|]. intros k. split; [intros H; split; [exact H|intros p []]|intros [H _]; exact H].
+  - destruct (IH _ (nset_remove_sorted (p_name a) _ Hs)) as [H1 H2]. split; [exact H1|].
+    intros k. rewrite H2, (nset_remove_snd (p_name a) hs k Hs). split.
+    + intros [[Hk Hne] Hall]. split; [exact Hk|]. intros p [<-|Hp]; [congruence|apply Hall; exact Hp].
+    + intros [Hk Hall]. split; [split; [exact Hk|]|].
+      * intros ->. apply (Hall a); [left; reflexivity|reflexivity].
+      * intros p Hp. apply Hall. right. exact Hp.
+Qed.
+
+Lemma hit_list_spec ps : forall hs p, nsorted hs ->
+  (In p (hit_list ps hs) <-> In (p_name p) hs /\ first_with_name ps p).
+Proof.
+  induction ps as [|a ps IH]; intros hs p Hs; cbn [hit_list].
+  - split; [intros []|]. intros [_ (pre & post & H & _)]. destruct pre; discriminate.
+  - pose proof (nset_remove_sorted (p_name a) _ Hs) as Hs1.
+    pose proof (fun x => nset_remove_snd (p_name a) hs x Hs) as Hsnd.
+    pose proof (nset_remove_fst (p_name a) hs) as Hfst.
+    specialize (IH (snd (nset_remove (p_name a) hs)) p Hs1).
+    assert (Hright : In p (hit_list ps (snd (nset_remove (p_name a) hs))) ->
+                     In (p_name p) hs /\ first_with_name (a :: ps) p).
+    { intros H. apply IH in H. destruct H as [Hin (pre & post & -> & Hpre)].
+      apply Hsnd in Hin. destruct Hin as [Hin Hne]. split; [exact Hin|].
+      exists (a :: pre), post. split; [reflexivity|].
+      intros q [<-|Hq]; [congruence|apply Hpre; exact Hq]. }
+    assert (Hleft : In (p_name p) hs -> first_with_name (a :: ps) p ->
+                    (p = a /\ In (p_name a) hs) \/ In p (hit_list ps (snd (nset_remove (p_name a) hs)))).
+    { intros Hin (pre & post & Heq & Hpre). destruct pre as [|a' pre]; cbn [app] in Heq; injection Heq as Ha Hps.
+      - left. split; [symmetry; exact Ha|rewrite Ha; exact Hin].
+      - subst a' ps. right. apply IH. split.
+        + apply Hsnd. split; [exact Hin|]. intros E. apply (Hpre a); [left; reflexivity|]. symmetry. exact E.
+        + exists pre, post. split; [reflexivity|]. intros q Hq. apply Hpre. right. exact Hq. }
+    destruct (fst (nset_remove (p_name a) hs)) eqn:Ef.
+    + cbn [In]. split.
+      * intros [<-|H]; [|apply Hright; exact H].
+        split; [apply Hfst; reflexivity|]. exists [], ps. split; [reflexivity|intros q []].
+      * intros [Hin Hf]. destruct (Hleft Hin Hf) as [[-> _]|H]; [left; reflexivity|right; exact H].
+    + split; [exact Hright|].
+      intros [Hin Hf]. destruct (Hleft Hin Hf) as [[-> Ha]|H]; [|exact H].
+      apply Hfst in Ha. congruence.
+Qed.
+
+Lemma hitlist_from_list_sorted hitlist :
+  nsorted (fold_left (fun h n => nset_insert n h) hitlist []) /\
+  (forall k, In k (fold_left (fun h n => nset_insert n h) hitlist []) <-> In k hitlist).
+Proof.
+  assert (H0 : nsorted []) by constructor.
+  destruct (nset_from_list_spec hitlist [] H0) as [H1 H2]. split; [exact H1|].
+  intros k. rewrite H2. cbn [In]. split; [intros [H|[]]; exact H|auto].
+Qed.
+
+Lemma with_hitlist_cases marg hitlist s md :
+  w_meta w marg = Some md ->
+  let hs := fold_left (fun h n => nset_insert n h) hitlist [] in
+  (remaining (packages md) hs = [] /\
+   get_targets_with_hitlist w marg hitlist s
+   = Ok (add_targets w (flat_map p_targets (hit_list (packages md) hs)) s))
+  \/ (exists n r, remaining (packages md) hs = n :: r /\
+                  get_targets_with_hitlist w marg hitlist s = Err (ENotMember n)).
+Proof.
+  intros Hm hs. unfold get_targets_with_hitlist. rewrite Hm. fold hs. rewrite hitlist_loop_eq.
+  destruct (remaining (packages md) hs) as [|n r].
+  - left. split; reflexivity.
+  - right. exists n, r. split; reflexivity.
+Qed.
+End Targets.
+
+(* ================================================================== *)
+(* 4. the recursion of --all *)
+Lemma member_check_false (ps : list pkg) (mp : path) :
+  existsb (fun p => p_manifest p =? mp) ps = false <-> (forall q, In q ps -> p_manifest q <> mp).
+Proof.
+  split.
+  - intros H q Hq E. assert (Ht : existsb (fun p => p_manifest p =? mp) ps = true).
+    { apply existsb_exists. exists q. split; [exact Hq|apply N.eqb_eq; exact E]. }
+    congruence.
+  - intros H. destruct (existsb (fun p => p_manifest p =? mp) ps) eqn:E; [|reflexivity].
+    apply existsb_exists in E. destruct E as (q & Hq & E). apply N.eqb_eq in E. exfalso. exact (H q Hq E).
+Qed.
+
+Lemma filter_len_le {A} (f g : A -> bool) (l : list A) :
+  (forall x, In x l -> f x = true -> g x = true) ->
+  (List.length (filter f l) <= List.length (filter g l))%nat.
+Proof.
+  induction l as [|x l IH]; intros H; cbn [filter]; [lia|].
+  assert (IH' := IH (fun y Hy => H y (or_intror Hy))).
+  destruct (f x) eqn:Ef.
+  - rewrite (H x (or_introl eq_refl) Ef). cbn [List.length]. lia.
+  - destruct (g x); cbn [List.length]; lia.
+Qed.
+Lemma filter_len_lt {A} (f g : A -> bool) (l : list A) (x0 : A) :
+  (forall x, In x l -> f x = true -> g x = true) ->
+  In x0 l -> f x0 = false -> g x0 = true ->
+  (List.length (filter f l) < List.length (filter g l))%nat.
+Proof.
+  induction l as [|x l IH]; intros H Hin Hf Hg; [destruct Hin|]. cbn [filter].
+  assert (Hle := filter_len_le f g l (fun y Hy => H y (or_intror Hy))).
+  destruct Hin as [->|Hin].
+  - rewrite Hf, Hg. cbn [List.length]. lia.
+  - assert (IH' := IH (fun y Hy => H y (or_intror Hy)) Hin Hf Hg).
+    destruct (f x) eqn:Ef.
+    + rewrite (H x (or_introl eq_refl) Ef). cbn [List.length]. lia.
+    + destruct (g x); cbn [List.length]; lia.
+Qed.
+Lemma filter_len_all {A} (f : A -> bool) (l : list A) : (List.length (filter f l) <= List.length l)%nat.
+Proof.
+  induction l as [|x l IH]; cbn [filter List.length]; [lia|]. destruct (f x); cbn [List.length]; lia.
+Qed.
+
+Section AllRec.
+Variable w : world.
+Variable root : option path.
+Variable vkey : pkgname -> path -> N.
+
+Definition covered (m : option path) (s : tset) : Prop :=
+  forall md p st, w_meta w m = Some md -> In p (packages md) -> In st (p_targets p) ->
+                  In (w_canon w (st_src st)) (tpaths s).
+Definition edges_keyed (m : option path) (v : nset) : Prop :=
+  forall n mp, Edge w m n mp -> In (vkey n mp) v.
+
+(* what happens between two states of (targets, visited); C = the manifests on which the recursive
+   function was called (and returned) in between *)
+Record T (C : list (option path)) (st st' : tset * nset) : Prop := MkTr {
+  T_paths : forall k, In k (tpaths (fst st)) -> In k (tpaths (fst st'));
+  T_vis : forall k, In k (snd st) -> In k (snd st');
+  T_C : forall c, In c C -> Reach w root c /\ covered c (fst st') /\ edges_keyed c (snd st');
+  T_newvis : forall k, In k (snd st') ->
+     In k (snd st) \/ exists c n mp, Reach w root c /\ Edge w c n mp /\ k = vkey n mp /\ In (Some mp) C;
+  T_sound : forall t, In t (fst st') ->
+     In t (fst st) \/ exists p st0, all_selected w root p /\ In st0 (p_targets p) /\ t = from_target w st0;
+  T_sorted : tsorted (fst st) -> tsorted (fst st')
+}.
+Arguments T_paths {C st st'}.
+Arguments T_vis {C st st'}.
+Arguments T_C {C st st'}.
+Arguments T_newvis {C st st'}.
+Arguments T_sound {C st st'}.
+Arguments T_sorted {C st st'}.
+
+Lemma T_refl st : T [] st st.
+Proof.
+  constructor; auto.
+  intros c [].
+Qed.
+
+Lemma T_trans C1 C2 a b c : T C1 a b -> T C2 b c -> T (C1 ++ C2) a c.
+Proof.
+  intros H1 H2. constructor.
+  - intros k Hk. apply (T_paths H2). apply (T_paths H1). exact Hk.
+  - intros k Hk. apply (T_vis H2). apply (T_vis H1). exact Hk.
+  - intros x Hx. apply in_app_or in Hx. destruct Hx as [Hx|Hx].
+    + destruct (T_C H1 x Hx) as (Hr & Hc & He). split; [exact Hr|]. split.
+      * intros md p st Hm Hp Hst. apply (T_paths H2). exact (Hc md p st Hm Hp Hst).
+      * intros n mp Hedge. apply (T_vis H2). exact (He n mp Hedge).
+    + exact (T_C H2 x Hx).
+  - intros k Hk. destruct (T_newvis H2 k Hk) as [Hb|(x & n & mp & Hr & He & Hkk & Hin)].
+    + destruct (T_newvis H1 k Hb) as [Ha|(x & n & mp & Hr & He & Hkk & Hin)]; [left; exact Ha|].
+      right. exists x, n, mp. repeat split; try assumption. apply in_or_app. left. exact Hin.
+    + right. exists x, n, mp. repeat split; try assumption. apply in_or_app. right. exact Hin.
+  - intros t Ht. destruct (T_sound H2 t Ht) as [Hb|Hsel]; [|right; exact Hsel].
+    exact (T_sound H1 t Hb).
+  - intros Hs. apply (T_sorted H2). apply (T_sorted H1). exact Hs.
+Qed.
+
+Lemma T_add_targets m md p s v :
+  Reach w root m -> w_meta w m = Some md -> In p (packages md) ->
+  T [] (s, v) (add_targets w (p_targets p) s, v).
+Proof.
+  intros Hr Hm Hp. constructor; cbn [fst snd].
+  - intros k Hk. apply add_targets_paths. right. exact Hk.
+  - auto.
+  - intros c [].
+  - auto.
+  - intros t Ht. destruct (add_targets_from _ _ _ _ Ht) as [H|(st0 & Hst0 & ->)]; [left; exact H|].
+    right. exists p, st0. split; [exists m, md; auto|split; [exact Hst0|reflexivity]].
+  - apply add_targets_sorted.
+Qed.
+
+Lemma T_insert C s v k st' c n mp :
+  T C (s, nset_insert k v) st' -> Reach w root c -> Edge w c n mp -> k = vkey n mp -> In (Some mp) C ->
+  T C (s, v) st'.
+Proof.
+  intros H Hr He Hk Hin. constructor; cbn [fst snd].
+  - exact (T_paths H).
+  - intros x Hx. apply (T_vis H). cbn [snd]. apply nset_insert_In. right. exact Hx.
+  - exact (T_C H).
+  - intros x Hx. destruct (T_newvis H x Hx) as [Hx'|Hx']; [|right; exact Hx'].
+    cbn [snd] in Hx'. apply nset_insert_In in Hx'. destruct Hx' as [->|Hx']; [|left; exact Hx'].
+    right. exists c, n, mp. repeat split; assumption.
+  - exact (T_sound H).
+  - exact (T_sorted H).
+Qed.
+
+Lemma T_add_C C st st' m :
+  T C st st' -> Reach w root m -> covered m (fst st') -> edges_keyed m (snd st') -> T (m :: C) st st'.
+Proof.
+  intros H Hr Hc He. constructor.
+  - exact (T_paths H).
+  - exact (T_vis H).
+  - intros c [<-|Hc']; [split; [exact Hr|split; [exact Hc|exact He]]|exact (T_C H c Hc')].
+  - intros k Hk. destruct (T_newvis H k Hk) as [Hk'|(c & n & mp & H1 & H2 & H3 & H4)]; [left; exact Hk'|].
+    right. exists c, n, mp. repeat split; try assumption. right. exact H4.
+  - exact (T_sound H).
+  - exact (T_sorted H).
+Qed.
+
+Definition recf_ok (recf : path -> tset * nset -> res (tset * nset)) : Prop :=
+  forall mp st st', Reach w root (Some mp) -> recf mp st = Ok st' -> exists C, T C st st' /\ In (Some mp) C.
+
+Definition dep_keyed (md : metadata) (d : dep) (v : nset) : Prop :=
+  forall dir, d_path d = Some dir -> w_exists w (w_toml_in w dir) = true ->
+              (forall q, In q (packages md) -> p_manifest q <> w_toml_in w dir) ->
+              In (vkey (d_name d) (w_toml_in w dir)) v.
+
+Lemma deps_loop_T recf m md p :
+  recf_ok recf -> Reach w root m -> w_meta w m = Some md -> In p (packages md) ->
+  forall ds st st', (forall d, In d ds -> In d (p_deps p)) ->
+    deps_loop w vkey recf md ds st = Ok st' ->
+    exists C, T C st st' /\ forall d, In d ds -> dep_keyed md d (snd st').
+Proof.
+  intros Hrec Hr Hm Hp. induction ds as [|d ds IH]; intros st st' Hsub Hrun; cbn [deps_loop] in Hrun.
+  - inversion Hrun; subst. exists []. split; [apply T_refl|intros d []].
+  - assert (Hsub' : forall d0, In d0 ds -> In d0 (p_deps p)) by (intros d0 Hd0; apply Hsub; right; exact Hd0).
+    destruct (d_path d) as [dir|] eqn:Edir.
+    + destruct (nset_mem (vkey (d_name d) (w_toml_in w dir)) (snd st)) eqn:Emem.
+      * destruct (IH st st' Hsub' Hrun) as (C & HT & Hk). exists C. split; [exact HT|].
+        intros d0 [<-|Hd0]; [|apply Hk; exact Hd0].
+        intros dir0 Hdir0 _ _. rewrite Edir in Hdir0. inversion Hdir0; subst dir0.
+        apply (T_vis HT). apply nset_mem_iff. exact Emem.
+      * destruct (w_exists w (w_toml_in w dir)
+                  && negb (existsb (fun p0 => p_manifest p0 =? w_toml_in w dir) (packages md))) eqn:Etest.
+        -- apply andb_true_iff in Etest. destruct Etest as [Eex Enm].
+           apply negb_true_iff in Enm. rewrite member_check_false in Enm.
+           assert (Hedge : Edge w m (d_name d) (w_toml_in w dir)).
+           { exists md, p, d, dir. repeat split; try assumption; try reflexivity.
+             apply Hsub. left. reflexivity. }
+           assert (Hr' : Reach w root (Some (w_toml_in w dir))) by (eapply Reach_step; eassumption).
+           destruct (recf (w_toml_in w dir)
+                          (fst st, nset_insert (vkey (d_name d) (w_toml_in w dir)) (snd st))) as [st1|e] eqn:Erec;
+             [|discriminate].
+           destruct (Hrec _ _ _ Hr' Erec) as (C1 & HT1 & Hin1).
+           assert (HT1' : T C1 st st1).
+           { destruct st as [s v]. cbn [fst snd] in *.
+             eapply T_insert; [exact HT1|exact Hr|exact Hedge|reflexivity|exact Hin1]. }
+           destruct (IH st1 st' Hsub' Hrun) as (C2 & HT2 & Hk). exists (C1 ++ C2).
+           split; [eapply T_trans; eassumption|].
+           intros d0 [<-|Hd0]; [|apply Hk; exact Hd0].
+           intros dir0 Hdir0 _ _. rewrite Edir in Hdir0. inversion Hdir0; subst dir0.
+           apply (T_vis HT2). apply (T_vis HT1). cbn [snd]. apply nset_insert_In. left. reflexivity.
+        -- destruct (IH st st' Hsub' Hrun) as (C & HT & Hk). exists C. split; [exact HT|].
+           intros d0 [<-|Hd0]; [|apply Hk; exact Hd0].
+           intros dir0 Hdir0 Hex Hnm. rewrite Edir in Hdir0. inversion Hdir0; subst dir0.
+           rewrite Hex in Etest. apply member_check_false in Hnm. rewrite Hnm in Etest. discriminate.
+    + destruct (IH st st' Hsub' Hrun) as (C & HT & Hk). exists C. split; [exact HT|].
+      intros d0 [<-|Hd0]; [|apply Hk; exact Hd0].
+      intros dir0 Hdir0. rewrite Edir in Hdir0. discriminate.
+Qed.
+
+Lemma dep_keyed_mono md d v v' : (forall k, In k v -> In k v') -> dep_keyed md d v -> dep_keyed md d v'.
+Proof. intros Hsub H dir H1 H2 H3. apply Hsub. exact (H dir H1 H2 H3). Qed.
+
+Lemma pkgs_loop_T recf m md :
+  recf_ok recf -> Reach w root m -> w_meta w m = Some md ->
+  forall ps st st', (forall p, In p ps -> In p (packages md)) ->
+    pkgs_loop w vkey recf md ps st = Ok st' ->
+    exists C, T C st st' /\
+      (forall p st0, In p ps -> In st0 (p_targets p) -> In (w_canon w (st_src st0)) (tpaths (fst st'))) /\
+      (forall p d, In p ps -> In d (p_deps p) -> dep_keyed md d (snd st')).
+Proof.
+  intros Hrec Hr Hm. induction ps as [|p ps IH]; intros st st' Hsub Hrun; cbn [pkgs_loop] in Hrun.
+  - inversion Hrun; subst. exists []. split; [apply T_refl|]. split; [intros p st0 []|intros p d []].
+  - assert (Hp : In p (packages md)) by (apply Hsub; left; reflexivity).
+    assert (Hsub' : forall p0, In p0 ps -> In p0 (packages md)) by (intros p0 Hp0; apply Hsub; right; exact Hp0).
+    destruct (deps_loop w vkey recf md (p_deps p) (add_targets w (p_targets p) (fst st), snd st)) as [st1|e] eqn:Ed;
+      [|discriminate].
+    destruct (deps_loop_T recf m md p Hrec Hr Hm Hp (p_deps p) _ _ (fun d Hd => Hd) Ed) as (C1 & HT1 & Hk1).
+    destruct (IH st1 st' Hsub' Hrun) as (C2 & HT2 & Hc2 & Hk2).
+    assert (HT0 : T [] st (add_targets w (p_targets p) (fst st), snd st)).
+    { destruct st as [s v]. cbn [fst snd]. eapply T_add_targets; eassumption. }
+    exists (([] ++ C1) ++ C2). split; [eapply T_trans; [eapply T_trans; eassumption|exact HT2]|]. split.
+    + intros p0 st0 [<-|Hp0] Hst0; [|apply (Hc2 p0 st0 Hp0 Hst0)].
+      apply (T_paths HT2). apply (T_paths HT1). cbn [fst]. apply add_targets_paths. left.
+      exists st0. split; [exact Hst0|reflexivity].
+    + intros p0 d [<-|Hp0] Hd; [|apply (Hk2 p0 d Hp0 Hd)].
+      eapply dep_keyed_mono; [exact (T_vis HT2)|]. apply Hk1. exact Hd.
+Qed.
+
+Lemma rec_gen_T : forall fuel m st st',
+  Reach w root m -> rec_gen w vkey fuel m st = Ok st' -> exists C, T C st st' /\ In m C.
+Proof.
+  induction fuel as [|f IH]; intros m st st' Hr Hrun; cbn [rec_gen] in Hrun; [discriminate|].
+  destruct (w_meta w m) as [md|] eqn:Hm; [|discriminate].
+  assert (Hrec : recf_ok (fun mp => rec_gen w vkey f (Some mp))).
+  { intros mp st0 st0' Hr0 Hrun0. exact (IH _ _ _ Hr0 Hrun0). }
+  destruct (pkgs_loop_T _ m md Hrec Hr Hm (packages md) _ _ (fun p Hp => Hp) Hrun) as (C & HT & Hc & Hk).
+  exists (m :: C). split; [|left; reflexivity].
+  apply T_add_C; [exact HT|exact Hr| |].
+  - intros md' p st0 Hm' Hp Hst0. rewrite Hm in Hm'. inversion Hm'; subst md'. exact (Hc p st0 Hp Hst0).
+  - intros n mp (md' & p & d & dir & Hm' & Hp & Hd & Hn & Hdir & Hmp & Hex & Hnm).
+    rewrite Hm in Hm'. inversion Hm'; subst md'. subst n mp. exact (Hk p d Hp Hd dir Hdir Hex Hnm).
+Qed.
+
+Definition key_inj : Prop :=
+  forall m1 n1 mp1 m2 n2 mp2,
+    Reach w root m1 -> Edge w m1 n1 mp1 -> Reach w root m2 -> Edge w m2 n2 mp2 ->
+    vkey n1 mp1 = vkey n2 mp2 -> mp1 = mp2.
+
+Lemma rec_gen_sound fuel s v :
+  rec_gen w vkey fuel root ([], []) = Ok (s, v) ->
+  tsorted s /\ forall t, In t s -> exists p st, all_selected w root p /\ In st (p_targets p) /\ t = from_target w st.
+Proof.
+  intros Hrun. destruct (rec_gen_T fuel _ _ _ (Reach_root w root) Hrun) as (C & HT & _). split.
+  - apply (T_sorted HT). apply tsorted_nil.
+  - intros t Ht. destruct (T_sound HT t Ht) as [[]|H]. exact H.
+Qed.
+
+Lemma rec_gen_complete fuel s v :
+  key_inj -> rec_gen w vkey fuel root ([], []) = Ok (s, v) ->
+  forall p st, all_selected w root p -> In st (p_targets p) -> In (w_canon w (st_src st)) (tpaths s).
+Proof.
+  intros Hinj Hrun. destruct (rec_gen_T fuel _ _ _ (Reach_root w root) Hrun) as (C & HT & HrootC).
+  assert (Hall : forall m, Reach w root m -> In m C).
+  { intros m Hr. induction Hr as [|m n mp Hr IHr He]; [exact HrootC|].
+    destruct (T_C HT m IHr) as (_ & _ & Hk). specialize (Hk n mp He). cbn [snd] in Hk.
+    destruct (T_newvis HT _ Hk) as [[]|(c & n' & mp' & Hr' & He' & Hkey & Hin)].
+    rewrite (Hinj m n mp c n' mp' Hr He Hr' He' Hkey). exact Hin. }
+  intros p st (m & md & Hr & Hm & Hp) Hst.
+  destruct (T_C HT m (Hall m Hr)) as (_ & Hc & _). exact (Hc md p st Hm Hp Hst).
+Qed.
+
+(* ---------------- termination: enough fuel ---------------- *)
+Variable U : list N.
+Hypothesis HU : forall m n mp, Reach w root m -> Edge w m n mp -> In (vkey n mp) U.
+
+Definition missing (v : nset) : nat := List.length (filter (fun k => negb (nset_mem k v)) U).
+
+Lemma missing_mono v v' : (forall k, In k v -> In k v') -> (missing v' <= missing v)%nat.
+Proof.
+  intros Hsub. apply filter_len_le. intros x _ Hx. apply negb_true_iff in Hx. apply negb_true_iff.
+  apply nset_mem_false. apply nset_mem_false in Hx. intros H. apply Hx. exact (Hsub x H). 
+Qed.
+Lemma missing_mono_back v v' : (forall k, In k v -> In k v') -> (missing v' <= missing v)%nat.
+Proof. exact (missing_mono v v'). Qed.
+
+Lemma missing_insert k v : In k U -> ~ In k v -> (missing (nset_insert k v) < missing v)%nat.
+Proof.
+  intros HkU Hkv. apply (filter_len_lt _ _ U k).
+  - intros x _ Hx. apply negb_true_iff in Hx. apply negb_true_iff.
+    apply nset_mem_false. apply nset_mem_false in Hx. intros H. apply Hx. apply nset_insert_In. right. exact H.
+  - exact HkU.
+  - apply negb_false_iff. apply nset_mem_iff. apply nset_insert_In. left. reflexivity.
+  - apply negb_true_iff. apply nset_mem_false. exact Hkv.
+Qed.
+
+Definition recf_fuel (f : nat) (recf : path -> tset * nset -> res (tset * nset)) : Prop :=
+  forall mp st, Reach w root (Some mp) -> (missing (snd st) < f)%nat -> recf mp st <> Err EFuel.
+
+Lemma deps_loop_fuel f recf m md p :
+  recf_ok recf -> recf_fuel f recf -> Reach w root m -> w_meta w m = Some md -> In p (packages md) ->
+  forall ds st, (forall d, In d ds -> In d (p_deps p)) -> (missing (snd st) <= f)%nat ->
+    deps_loop w vkey recf md ds st <> Err EFuel.
+Proof.
+  intros Hrec Hfuel Hr Hm Hp. induction ds as [|d ds IH]; intros st Hsub Hmiss; cbn [deps_loop]; [discriminate|].
+  assert (Hsub' : forall d0, In d0 ds -> In d0 (p_deps p)) by (intros d0 Hd0; apply Hsub; right; exact Hd0).
+  destruct (d_path d) as [dir|] eqn:Edir; [|apply IH; assumption].
+  destruct (nset_mem (vkey (d_name d) (w_toml_in w dir)) (snd st)) eqn:Emem; [apply IH; assumption|].
+  destruct (w_exists w (w_toml_in w dir)
+            && negb (existsb (fun p0 => p_manifest p0 =? w_toml_in w dir) (packages md))) eqn:Etest;
+    [|apply IH; assumption].
+  apply andb_true_iff in Etest. destruct Etest as [Eex Enm].
+  apply negb_true_iff in Enm. rewrite member_check_false in Enm.
+  assert (Hedge : Edge w m (d_name d) (w_toml_in w dir)).
+  { exists md, p, d, dir. repeat split; try assumption; try reflexivity. apply Hsub. left. reflexivity. }
+  assert (Hr' : Reach w root (Some (w_toml_in w dir))) by (eapply Reach_step; eassumption).
+  apply nset_mem_false in Emem.
+  pose proof (missing_insert _ _ (HU _ _ _ Hr Hedge) Emem) as Hlt.
+  destruct (recf (w_toml_in w dir) (fst st, nset_insert (vkey (d_name d) (w_toml_in w dir)) (snd st)))
+    as [st1|e] eqn:Erec.
+  - destruct (Hrec _ _ _ Hr' Erec) as (C1 & HT1 & _). apply IH; [exact Hsub'|].
+    assert (Hle : (missing (snd st1) <= missing (nset_insert (vkey (d_name d) (w_toml_in w dir)) (snd st)))%nat).
+    { apply missing_mono. exact (T_vis HT1). }
+    lia.
+  - intros Heq. inversion Heq; subst e. apply (Hfuel (w_toml_in w dir) _ Hr') in Erec; [exact Erec|].
+    cbn [snd]. lia.
+Qed.
+
+Lemma pkgs_loop_fuel f recf m md :
+  recf_ok recf -> recf_fuel f recf -> Reach w root m -> w_meta w m = Some md ->
+  forall ps st, (forall p, In p ps -> In p (packages md)) -> (missing (snd st) <= f)%nat ->
+    pkgs_loop w vkey recf md ps st <> Err EFuel.
+Proof.
+  intros Hrec Hfuel Hr Hm. induction ps as [|p ps IH]; intros st Hsub Hmiss; cbn [pkgs_loop]; [discriminate|].
+  assert (Hp : In p (packages md)) by (apply Hsub; left; reflexivity).
+  assert (Hsub' : forall p0, In p0 ps -> In p0 (packages md)) by (intros p0 Hp0; apply Hsub; right; exact Hp0).
+  destruct (deps_loop w vkey recf md (p_deps p) (add_targets w (p_targets p) (fst st), snd st)) as [st1|e] eqn:Ed.
+  - destruct (deps_loop_T recf m md p Hrec Hr Hm Hp (p_deps p) _ _ (fun d Hd => Hd) Ed) as (C1 & HT1 & _).
+    apply IH; [exact Hsub'|].
+    assert (Hle : (missing (snd st1) <= missing (snd st))%nat) by (apply missing_mono; exact (T_vis HT1)).
+    lia.
+  - intros Heq. inversion Heq; subst e.
+    exact (deps_loop_fuel f recf m md p Hrec Hfuel Hr Hm Hp (p_deps p)
+                          (add_targets w (p_targets p) (fst st), snd st) (fun d Hd => Hd) Hmiss Ed).
+Qed.
+
+Lemma rec_gen_fuel : forall f m st,
+  Reach w root m -> (missing (snd st) < f)%nat -> rec_gen w vkey f m st <> Err EFuel.
+Proof.
+  induction f as [|f IH]; intros m st Hr Hmiss; [lia|]. cbn [rec_gen].
+  destruct (w_meta w m) as [md|] eqn:Hm; [|discriminate].
+  apply (pkgs_loop_fuel f _ m md).
+  - intros mp st0 st0' Hr0 Hrun0. exact (rec_gen_T _ _ _ _ Hr0 Hrun0).
+  - intros mp st0 Hr0 Hm0. exact (IH _ _ Hr0 Hm0).
+  - exact Hr.
+  - exact Hm.
+  - auto.
+  - lia.
+Qed.
+
+Lemma rec_gen_fuel_enough fuel :
+  (List.length U < fuel)%nat -> rec_gen w vkey fuel root ([], []) <> Err EFuel.
+Proof.
+  intros H. apply rec_gen_fuel; [apply Reach_root|].
+  unfold missing. pose proof (filter_len_all (fun k => negb (nset_mem k (snd (@nil target, @nil N)))) U). lia.
+Qed.
+End AllRec.
